@@ -44,11 +44,15 @@ def strategy(tier):
     herm = problems(tier, hermitian=True)
     nh = problems(tier, hermitian=False, complex_energy=True, safe_bias=True)
     small = problems(tier, hermitian=True, max_blocks=2, max_N=4, max_params=2, selections=("none", "full", "mask"))
+    # Hermitian problems with a selective-diagonalisation mask dictionary on some of >= 2 blocks
+    masked = problems(tier, hermitian=True, min_blocks=2, max_blocks=3, selections=("mask",))
 
     @st.composite
     def cases(draw):
-        p = draw(st.one_of(herm, herm, nh))
+        p = draw(st.one_of(herm, herm, nh, masked, masked))
         t = draw(st.sampled_from(["relabel", "permute_states", "rotate_degenerate", "conjugate", "shift", "shift", "scale", "direct_sum"]))
+        if p["selection"]["kind"] == "mask" and len(p["blocks"]) >= 2 and draw(st.booleans()):
+            t = "relabel"  # a mask dictionary must follow its blocks: {0: m} <-> {1: m}
         par = {}
         nb, N = len(p["blocks"]), len(p["assign"])
         if t == "relabel":
